@@ -192,24 +192,24 @@ Qed.
 Lemma catchup_numbered cf : forall clock st gs st',
   catchup cf clock st = (gs, st') ->
   numbered cf (nextNr st) gs /\ lastToSend st' = lastToSend st /\
-  (ph st' = PRunning -> nextNr st' = nextNr st + lenZ gs) /\
-  Forall (Forall (fun m => mp_last m = false)) gs.
+  (ph st' = PRunning -> nextNr st' = nextNr st + lenZ gs).
 Proof.
   induction clock as [|now clock IH]; intros st gs st' H; cbn [catchup] in H.
-  - inversion H; subst. cbn [numbered]; rewrite ?lenZ_nil; repeat split; try lia. constructor.
-  - destruct (ph st) eqn:Eph; try (inversion H; subst; cbn [numbered]; rewrite ?lenZ_nil; repeat split; try lia; try congruence; constructor).
+  - inversion H; subst. cbn [numbered]; rewrite ?lenZ_nil; intuition lia.
+  - destruct (ph st) eqn:Eph; try (inversion H; subst; cbn [numbered]; rewrite ?lenZ_nil; intuition (try lia; congruence)).
     destruct (availT st - now <=? 0).
-    + destruct (sendMedia cf (nextNr st) (availT st) false) as [g| |] eqn:Es.
+    + destruct (sc_catchup_checks cf && (0 <=? lastToSend st) && (lastToSend st <? nextNr st)).
+      { inversion H; subst. cbn [numbered ph stopped lastToSend]. rewrite ?lenZ_nil. intuition discriminate. }
+      destruct (sendMedia cf (nextNr st) (availT st) (sc_catchup_checks cf && (nextNr st =? lastToSend st))) as [g| |] eqn:Es.
       * destruct (catchup cf clock (afterSend cf [] g (advance cf st))) as [gs1 st1] eqn:Ec.
-        inversion H; subst. apply IH in Ec. destruct Ec as (N1 & L1 & R1 & F1).
+        inversion H; subst. apply IH in Ec. destruct Ec as (N1 & L1 & R1).
         rewrite afterSend_next, advance_next in N1, R1. rewrite afterSend_last, advance_last in L1.
         apply sendMedia_wf in Es. destruct Es as [Hw Hl].
-        cbn [numbered]. rewrite lenZ_cons. split; [split; assumption|]. split; [assumption|]. split.
-        -- intros Hr. rewrite R1 by assumption. lia.
-        -- constructor; [|assumption]. eapply Forall_impl; [|exact Hl]. cbn. tauto.
-      * inversion H; subst. cbn [numbered]; rewrite ?lenZ_nil; repeat split; try lia; try discriminate. constructor.
-      * inversion H; subst. cbn [numbered]; rewrite ?lenZ_nil; repeat split; try lia; try discriminate. constructor.
-    + inversion H; subst. cbn [numbered]; rewrite ?lenZ_nil; repeat split; try lia. constructor.
+        cbn [numbered]. rewrite lenZ_cons. split; [split; assumption|]. split; [assumption|].
+        intros Hr. rewrite R1 by assumption. lia.
+      * inversion H; subst. cbn [numbered ph stopped lastToSend]. rewrite ?lenZ_nil. intuition discriminate.
+      * inversion H; subst. cbn [numbered ph crashed lastToSend]. rewrite ?lenZ_nil. intuition discriminate.
+    + inversion H; subst. cbn [numbered]; rewrite ?lenZ_nil; intuition lia.
 Qed.
 
 Lemma fire_numbered cf fi st gs st' :
@@ -225,7 +225,7 @@ Proof.
       * inversion H; subst. cbn [numbered]. rewrite lenZ_cons, lenZ_nil, loopTop_next, loopTop_last, advance_next, advance_last.
         intuition lia.
       * destruct (catchup cf (fi_clock fi) (advance cf st)) as [gs1 st2] eqn:Ec. inversion H; subst.
-        apply catchup_numbered in Ec. destruct Ec as (N1 & L1 & R1 & _).
+        apply catchup_numbered in Ec. destruct Ec as (N1 & L1 & R1).
         rewrite advance_next in N1, R1. rewrite advance_last in L1.
         cbn [numbered]. rewrite lenZ_cons, loopTop_next, loopTop_last.
         split; [tauto|]. split; [assumption|].
@@ -552,11 +552,11 @@ Proof.
   rewrite (wrapDur_eq r loopMS W). unfold E. f_equal. lia.
 Qed.
 
-Lemma exact_on_time reps r loopMS segDur c timeline test dur chunked atoMS :
+Lemma exact_on_time reps r loopMS segDur c timeline test dur chunked cc atoMS :
   wf r loopMS -> startNr c = 0 -> ato c = Some atoMS -> 0 <= atoMS ->
   avail_on_time {| sc_reps := reps; sc_ref := r; sc_loopMS := loopMS; sc_segDurMS := segDur; sc_cfg := c;
                    sc_timeline := timeline; sc_test := test; sc_dur := dur; sc_chunked := chunked;
-                   sc_avail := availMS_exact r loopMS c |}.
+                   sc_catchup_checks := cc; sc_avail := availMS_exact r loopMS c |}.
 Proof.
   intros W Hs Hato Hpos n a Hn Ha. cbn [sc_avail sc_ref sc_cfg] in *. unfold availMS_exact in Ha.
   rewrite (availTicks_spec r loopMS c n W Hs) in Ha by lia. cbn [bind] in Ha. rewrite Hato in Ha.
@@ -667,3 +667,15 @@ Proof.
   destruct (sc_avail cf _); try (inversion Es; subst; discriminate).
   inversion Es; subst. rewrite loopTop_next. reflexivity.
 Qed.
+
+(** The catch-up scenario of [catchup_witness] with the proposed repair
+    (proposed_fixes/C16-catchup-duration.diff, [sc_catchup_checks = true]): number 6 is marked last
+    and nothing is sent beyond it, however far behind the sender is. *)
+Lemma catchup_fixed_witness :
+  let cf := mk_scfg_rc RCeil true [ {| ir_kind := RVideo; ir_tab := Some rep2s |} ] rep2s 8000 2000 cfg0 false false (Some 2) false in
+  (let '(_, gs, st) := session cf 11200 [] [EvTimer {| fi_clock := [14300; 14301]; fi_refuse := [] |}] in
+   map (map (fun m => (mp_nr m, mp_last m))) gs = [[(5, false)]; [(6, true)]] /\ ph st = PStopped)
+  /\
+  (let '(_, gs, st) := session cf 11200 [] [EvTimer {| fi_clock := [14300; 16400; 18500; 18501]; fi_refuse := [] |}] in
+   map (map (fun m => (mp_nr m, mp_last m))) gs = [[(5, false)]; [(6, true)]] /\ ph st = PStopped).
+Proof. vm_compute. repeat split; reflexivity. Qed.
